@@ -541,6 +541,8 @@ class OpsMixin:
                 r = self.run.rec(cont.oid)
                 if r.concrete:
                     return z3.Or([self.eq(x, y) for y in r.items] or [z3.BoolVal(False)])
+                if r.mem is not None:
+                    return z3.Select(r.mem, self.term_of(x, r.elem))       # ghost membership set (exact under append)
                 if r.arr is not None:
                     i = z3.Int("i!in")
                     return z3.Exists([i], z3.And(i >= 0, i < r.length, z3.Select(r.arr, i) == self.term_of(x, r.elem)))
